@@ -27,6 +27,9 @@ CLAIMS = {
  "C05": ("Lean 4 theorems (Props/C05.lean, 27): write_path_independent (single/double buffer, every size and threshold), patch_eq_serialize (for any checksum function), header/blob-header parse round-trips, load_roundtrip, crc_window + crc32c_detects_window (any alteration inside 4 adjacent bytes / 32 consecutive bits changes CRC-32C), load_checks, altered_never_served, altered_scan_rejected; the L5 byte model is tied to the code byte-exactly: length and CRC-32C of every blob file vs blobBytes of the model after every step, over all size classes around both thresholds; plus on-disk alteration sweeps read back through the API.",
          "4/C05", "bursts wider than 4 bytes are not generated (theorem covers 32 consecutive bits); metadata bytes are not checksummed by Pearl; u64 wrap-around excluded by InRange hypotheses",
          "Lean 4 proofs over the byte-level model (bincode layout, CRC-32C) + byte-exact correspondence + alteration sweep"),
+ "C06": ("Lean 4 theorems (Props/C06.lean, 19 + quarantine table tied to the source by the translator): for every blob image the writer model produces and EVERY cut length, the exact outcome of start-up (scan_prefix: blob-header cut / header-only / record boundary / cut inside a record header / inside meta+data with and without data validation), served_is_prefix (what is served is a prefix of the acknowledged order with original bytes, except possibly the torn tail record), init_total (start-up never fails on any prefix: ok or quarantine), torn_record_unreadable, two_crash_witness (E8). Tie: (i) power-loss model - at quiescent points every blob is cut at every length between its synced size and its size, combined with index variants, each state opened in a copy and judged (served prefix / quarantined intact / other blobs in full / no foreign bytes / post-recovery write survives an index-less restart); (ii) real SIGKILL - a child process acknowledges steps on a pipe and is killed after a random delay; every acknowledged write must be served or restorable by the recovery tool from a quarantined blob.",
+         "4/C06", "which prefixes persist after power loss is the file system's contract (all prefixes beyond the last sync are explored); known finding E8 (torn tail accepted; two-crash history loses the post-recovery write)",
+         "Lean 4 proof over the byte-level scan model for every cut + crash-state enumeration + SIGKILL runs"),
  "C07": ("Lean 4 theorems (apply_log: records of a blob only grow by appending; ids_never_reused_in_run in Props/C15.lean; L5 blobBytes append lemmas; Props/C07.lean over the event-emitting L6 model is in progress) + implementation-level oracles that do not depend on the model: byte snapshots of every blob file (work and corrupted dirs) after every step incl. restarts and quarantines (earlier content is a prefix or the file moved unchanged; new names carry ids above every id ever seen), tap-trace predicates (no blob write below the end of file, no create of an existing blob name), queries at quiescent points issue no file operation.",
          "4/C07", "injected blob damage is applied by the harness between sessions (the reference snapshot follows it); after the first injected damage the model comparison is off and the Spec oracle follows the implementation probe",
          "Lean 4 invariant proof (append-only log, fresh ids) + byte-snapshot and tap-trace oracles on the implementation"),
